@@ -5,6 +5,7 @@ CONSTANTS
   SepLens <- SL2
   WidthRule = "full"
   ExpandRule = "shipped"
+  CsvCtx = "own"
 INIT Init
 NEXT Next
 INVARIANTS SkeletonInv
